@@ -9,19 +9,28 @@ open Secp.Spec Secp.Model
 
 /-- with a given nonce the model returns exactly the FIPS 186 signature with s in the lower half and
     the recovery code of the nonce point (parity of y, x ≥ N) adjusted for the s flip -/
-theorem sign_eq_spec (hp : PointSpec) (d k : Nat) (h : Bytes) (hd : d < N) (hk0 : 0 < k) (hk : k < N) :
+theorem sign_eq_spec (hp : PointSpec) (d k : Nat) (h : Bytes) (hd : d < N) (hk0 : 0 < k) (hk : k < N)
+    (hfin : smul k G ≠ none) :
     signM d k h = ecdsaSignWithNonce d k h :=
-  Secp.Proofs.Ecdsa.sign_eq_spec hp d k h hd hk0 hk
+  Secp.Proofs.Ecdsa.sign_eq_spec hp d k h hd hk0 hk hfin
 
 /-- the deterministic signer follows the RFC 6979 candidate stream: first index whose signature exists -/
-theorem signRFC6979_eq_spec (hp : PointSpec) (d : Nat) (h : Bytes) (hd : d < N) (fuel iter : Nat) :
+theorem signRFC6979_eq_spec (hp : PointSpec) (d : Nat) (h : Bytes) (hd : d < N) (fuel iter : Nat)
+    (hfin : ∀ k, 0 < k → k < N → smul k G ≠ none) :
     signRFC6979Aux hmacSha256 d h fuel iter = ecdsaSignAuxGen hmacSha256 256 d h fuel iter :=
-  Secp.Proofs.Ecdsa.signRFC6979_eq_spec hp d h hd fuel iter
+  Secp.Proofs.Ecdsa.signRFC6979_eq_spec hp d h hd fuel iter hfin
 
 /-- s is always in the lower half and r, s are non-zero scalars -/
-theorem sign_low_s (d k : Nat) (h : Bytes) (r s v : Nat) (hs : signM d k h = some (r, s, v)) :
+theorem sign_low_s (hp : PointSpec) (d k : Nat) (h : Bytes) (r s v : Nat) (hk : k < N)
+    (hfin : smul k G ≠ none) (hs : signM d k h = some (r, s, v)) :
     0 < r ∧ r < N ∧ 0 < s ∧ s ≤ halfN ∧ v < 4 :=
-  Secp.Proofs.Ecdsa.sign_low_s d k h r s v hs
+  Secp.Proofs.Ecdsa.sign_low_s hp d k h r s v hk hfin hs
+
+/-- the part of `sign_low_s` that needs nothing about the point layer (`r < N` needs the affine
+    x coordinate returned by ToAffine to be < P) -/
+theorem sign_low_s_partial (d k : Nat) (h : Bytes) (r s v : Nat) (hs : signM d k h = some (r, s, v)) :
+    0 < r ∧ 0 < s ∧ s ≤ halfN ∧ v < 4 :=
+  Secp.Proofs.Ecdsa.sign_low_s_partial d k h r s v hs
 
 /-- signing is a function of (key, nonce, hash): determinism is definitional in the model; the
     code's determinism (no hidden state) is checked by the correspondence run, which signs every
